@@ -38,6 +38,7 @@ type Config struct {
 	Rounds   int    `json:"rounds"`  // rounds of concurrent calls with a barrier (and a consistency check) in between; 0 = 1
 	Readers  int    `json:"readers"` // goroutines that only ask (listings, queries, lookups), in a loop, for as long as the others work
 	Filler   int    `json:"filler"`  // bugs nobody edits: they make the listings long
+	Storm    bool   `json:"storm"`   // every round: all workers stage a comment on the same bug, wait for each other, then CommitAsNeeded at once
 }
 
 type Ack struct {
@@ -223,6 +224,7 @@ func one(cfg Config) *Result {
 		}
 		mu.Unlock()
 	}
+	var attempted int64 // bugs the workers tried to create
 	rounds := cfg.Rounds
 	if rounds < 1 {
 		rounds = 1
@@ -230,6 +232,8 @@ func one(cfg Config) *Result {
 	stuck := false
 	for round := 0; round < rounds && !stuck && res.Stale == ""; round++ {
 		var wg sync.WaitGroup
+		var staged sync.WaitGroup
+		staged.Add(cfg.Workers)
 		var progress int64
 		start := make(chan struct{})
 		for g := 1; g <= cfg.Workers; g++ {
@@ -246,6 +250,31 @@ func one(cfg Config) *Result {
 				r := &rng{s: cfg.Seed*1000003 + uint64(g)*7919 + uint64(round)*104729 + 1}
 				var private []entity.Id
 				<-start
+				if cfg.Storm {
+					// everybody stages a comment on the same bug, waits for the others, and commits at the same moment
+					id := bugIds[0]
+					b, err := c.Bugs().Resolve(id)
+					if err != nil {
+						fail(g, "Resolve", err)
+						staged.Done()
+						return
+					}
+					_, op, err := b.AddComment(fmt.Sprintf("comment g%d round %d", g, round))
+					staged.Done()
+					staged.Wait()
+					if err != nil {
+						fail(g, "AddComment", err)
+						return
+					}
+					if err := b.CommitAsNeeded(); err != nil {
+						maybe(g, 1, op.Id())
+						fail(g, "CommitAsNeeded", err)
+						return
+					}
+					atomic.AddInt64(&progress, 1)
+					ack(g, 1, op.Id())
+					return
+				}
 				for k := 0; k < cfg.Calls; k++ {
 					atomic.AddInt64(&progress, 1)
 					choice := r.n(10)
@@ -257,6 +286,7 @@ func one(cfg Config) *Result {
 					}
 					switch {
 					case choice == 9 || (cfg.Shared == 0 && len(private) == 0):
+						atomic.AddInt64(&attempted, 1) // a creation that reports an error may have written the bug all the same
 						b, op, err := c.Bugs().New(fmt.Sprintf("private g%d k%d", g, k), "message")
 						if err != nil {
 							fail(g, "New", err)
@@ -309,7 +339,13 @@ func one(cfg Config) *Result {
 								maybe(g, n, op.Id()) // the call failed after the operation was staged: its fate is open
 							}
 							if err == nil {
-								err = b.Commit()
+								// the two ways to commit: Commit (an error when another goroutine's commit took the operation along)
+								// and CommitAsNeeded (nothing to do in that case)
+								if (k+g)%2 == 0 {
+									err = b.CommitAsNeeded()
+								} else {
+									err = b.Commit()
+								}
 								if err != nil {
 									maybe(g, n, op.Id())
 								}
@@ -428,7 +464,7 @@ func one(cfg Config) *Result {
 	if stuck {
 		res.Deadlock = true
 		mu.Lock()
-		res.MayEvict = cfg.Size < len(bugIds)
+		res.MayEvict = cfg.Size < cfg.Shared+cfg.Filler+int(atomic.LoadInt64(&attempted))
 		mu.Unlock()
 		buf := make([]byte, 1<<16)
 		n := runtime.Stack(buf, true)
@@ -438,7 +474,7 @@ func one(cfg Config) *Result {
 		}
 		return res
 	}
-	res.MayEvict = cfg.Size < len(bugIds)
+	res.MayEvict = cfg.Size < cfg.Shared+cfg.Filler+int(atomic.LoadInt64(&attempted))
 	// clocks: what the process holds in memory against what a restart would read
 	if clk, err := repo.GetOrCreateClock("bugs-edit"); err == nil {
 		res.ClockMem = int(clk.Time())
@@ -571,6 +607,10 @@ func Run(args []string) {
 	for i := 0; i < 3+runs/100; i++ {
 		cfgs = append(cfgs, Config{Seed: seed*7717 + uint64(i), Workers: 6, Calls: 10, Shared: 2, Size: 1000, Procs: 16, ColdOpen: false, Rounds: 12,
 			Readers: 6, Filler: 60})
+	}
+	// commits of one bug by several goroutines at the same moment
+	for i := 0; i < 3+runs/100; i++ {
+		cfgs = append(cfgs, Config{Seed: seed*5501 + uint64(i), Workers: []int{4, 8, 3}[i%3], Calls: 1, Shared: 1, Size: 1000, Procs: 16, ColdOpen: false, Rounds: 60, Storm: true})
 	}
 	results := make([]*Result, len(cfgs))
 	hx.Parallel(len(cfgs), 4, func(i int) {
